@@ -397,6 +397,9 @@ def judge_history(ctx, kind, profile, ops, sample=False, route_back=False, gw_ro
     if burst:
         ctx.count(f"histories_burst_{burst}_{kind}")
     for inj in injections:
+        if inj["verdict"] == "R" and inj["c"] == 255:
+            ctx.count(("repeat_255_at_expected_0_on_fresh_connection_" if inj["pos"] == "first"
+                       else "repeat_255_at_expected_0_after_a_lap_") + kind)
         if inj.get("burst"):
             ctx.count(f"burst_frames_{inj['verdict']}_{kind}")
             ctx.count(f"burst_frames_{'rb' if route_back else 'hpai'}")
@@ -414,11 +417,23 @@ def judge_history(ctx, kind, profile, ops, sample=False, route_back=False, gw_ro
                     "profile": profile, "ops": ops[:25],
                     "frames": [(inj["c"], inj["verdict"]) for inj in injections[:25]]}, cap=6)
     problems = judge(injections, acks, cbs)
+    # an exception of the code under test during an injected event is caught at the injection point (gateway) and judged here:
+    # the ACK rules cannot be met by a receive path that raised
+    by_time = {}
+    for inj in injections:
+        by_time.setdefault(inj["t"], inj)
+    for t, k, info in log:
+        if k == "rx_raised":
+            ctx.count("receive_path_exceptions")
+            d = {"exception": info.get("detail"), "frame": info.get("type")}
+            if t in by_time:
+                d["injection"] = by_time[t]
+            problems.append((f"receive-path-raises-{info.get('exc')}", d))
     # only the first frame that was handled differently is reported: once the real counter and the reference have
     # diverged, everything after it is a consequence and would blur the mechanism
     first = min((d["injection"]["i"] for _m, d in problems if "injection" in d), default=None)
     if first is not None:
-        problems = [(m, d) for m, d in problems if d.get("injection", {}).get("i") == first]
+        problems = [(m, d) for m, d in problems if "injection" not in d or d["injection"]["i"] == first]
     seen = set()
     for mech, detail in problems:
         if mech in seen:
@@ -440,7 +455,7 @@ def run(ctx):
                 "wrap_E", "wrap_R", "first_after_reconnect_E", "first_after_reconnect_O", "connection_epochs",
                 "first_after_reconnect_tunnel_rb", "first_after_reconnect_tunnel_hpai", "first_after_reconnect_devconn_rb",
                 "first_after_reconnect_devconn_hpai", "burst_frames_on_first_connect", "burst_frames_on_reconnect",
-                "burst_frames_rb", "burst_frames_hpai",
+                "burst_frames_rb", "burst_frames_hpai", *(f"repeat_255_at_expected_0_{w}_{k}" for w in ("on_fresh_connection", "after_a_lap") for k in KINDS),
                 *(f"burst_frames_{v}_{k}" for v in "ERO" for k in KINDS),
                 *(f"histories_burst_{b}_{k}" for b in ("same-callback", "call-soon") for k in KINDS))
     rng = ctx.rng
